@@ -1,5 +1,45 @@
-from jsim.envs.base import Adapter
+"""RobotWarehouse: rules written from docs/environments/robot_warehouse.md, the class docstring (floor plan) and
+the observation description in the docstrings of `calculate_num_observation_features` / `get_agent_view`.
+
+Conventions (learned from types/generator): `Position(x, y)` is (row, column) into `grid[channel, row, col]`;
+channel 0 holds shelf id + 1, channel 1 agent id + 1 (0 = empty). Directions 0 up (row-1), 1 right (col+1),
+2 down (row+1), 3 left (col-1). Actions 0 noop, 1 forward, 2 turn left, 3 turn right, 4 toggle load.
+Floor plan (docstring picture): height (column_height+1)*shelf_rows+2, width 3*shelf_columns+1; shelf cells
+are the two-wide clusters between the single-cell aisles, minus the bottom-middle cluster; every other cell
+is "highway"; the two goal cells are the middle cells of the last row.
+
+Documented rules used here: an agent that carries a shelf cannot walk into a cell that holds another shelf
+(that forward is the only masked action; it is ignored like a noop); the episode ends when agents collide or
+at the time limit; the reward/request-queue dynamics are not modelled (no C09 model).
+"""
+from __future__ import annotations
+
+from collections import deque
+from typing import Any, Dict, List, Optional, Tuple
+
+import numpy as np
+
 from jsim.envs._mk import cfg, cross_tl
+from jsim.envs.base import Adapter
+
+DIRS = [(-1, 0), (0, 1), (1, 0), (0, -1)]  # up, right, down, left as (d_row, d_col)
+NOOP, FORWARD, LEFT, RIGHT, TOGGLE = 0, 1, 2, 3, 4
+
+
+def highways(sr: int, sc: int, h: int) -> np.ndarray:
+    """Boolean (H, W) floor plan from the class docstring: True = aisle / delivery area, False = shelf location."""
+    H, W = (h + 1) * sr + 2, 3 * sc + 1
+    shelf = np.zeros((H, W), bool)
+    for r in range(H):
+        for c in range(W):
+            in_cluster_col = c % 3 != 0
+            in_cluster_row = r % (h + 1) != 0 and r < (h + 1) * sr
+            shelf[r, c] = in_cluster_col and in_cluster_row
+    mid = (W // 2 - 1, W // 2)  # the bottom-middle cluster is removed so agents can queue in front of the goals
+    for r in range((h + 1) * (sr - 1) + 1, H):
+        for c in mid:
+            shelf[r, c] = False
+    return ~shelf
 
 
 class A(Adapter):
@@ -7,6 +47,9 @@ class A(Adapter):
     mask_mode = "per_agent"
     noop = 0
     fork_every = 4
+    has_invalid_effect = True
+    has_physical = True
+    has_observer = True
 
     def configs(self):
         base = [cfg("default", True, sr=2, sc=3, h=8, a=4, rng=1, q=8, tl=None), cfg("s1c3h1a2r2q2", True, sr=1, sc=3, h=1, a=2, rng=2, q=2, tl=None),
@@ -23,3 +66,284 @@ class A(Adapter):
 
     def time_limit(self, env, c):
         return 500 if c.get("tl") is None else c["tl"]
+
+    # ---- entity tables -----------------------------------------------------------------------------
+    @staticmethod
+    def _agents(s: Any) -> List[Tuple[int, int, int, int]]:
+        """[(row, col, direction, carrying)] per agent."""
+        a = s.agents
+        xs, ys = np.asarray(a.position.x).reshape(-1), np.asarray(a.position.y).reshape(-1)
+        d, c = np.asarray(a.direction).reshape(-1), np.asarray(a.is_carrying).reshape(-1)
+        return [(int(xs[i]), int(ys[i]), int(d[i]), int(c[i])) for i in range(len(xs))]
+
+    @staticmethod
+    def _shelves(s: Any) -> List[Tuple[int, int, int]]:
+        """[(row, col, requested)] per shelf."""
+        sh = s.shelves
+        xs, ys = np.asarray(sh.position.x).reshape(-1), np.asarray(sh.position.y).reshape(-1)
+        rq = np.asarray(sh.is_requested).reshape(-1)
+        return [(int(xs[j]), int(ys[j]), int(rq[j])) for j in range(len(xs))]
+
+    @staticmethod
+    def _ahead(shape: Tuple[int, int], r: int, c: int, d: int) -> Optional[Tuple[int, int]]:
+        nr, nc = r + DIRS[d][0], c + DIRS[d][1]
+        if 0 <= nr < shape[0] and 0 <= nc < shape[1]:
+            return nr, nc
+        return None
+
+    # ---- C04 -------------------------------------------------------------------------------------
+    def legal_bounds(self, s: Any, env: Any):
+        ag = self._agents(s)
+        shape = tuple(np.asarray(s.grid).shape[1:])
+        shelf_cells = {(r, c) for r, c, _ in self._shelves(s)}
+        hi = np.ones((len(ag), 5), bool)
+        lo = np.ones((len(ag), 5), bool)
+        for i, (r, c, d, carrying) in enumerate(ag):
+            t = self._ahead(shape, r, c, d)
+            if t is None:
+                lo[i, FORWARD] = False  # forward against the outer wall: the docs are silent (the agent just stays) - not judged
+            elif carrying and t in shelf_cells:
+                lo[i, FORWARD] = hi[i, FORWARD] = False
+        return lo, hi
+
+    def describe(self, s, env, idx):
+        i = int(idx[0])
+        r, c, d, carrying = self._agents(s)[i]
+        t = self._ahead(tuple(np.asarray(s.grid).shape[1:]), r, c, d)
+        shelf_cells = {(x, y) for x, y, _ in self._shelves(s)}
+        return f"agent {i} at (row, col)=({r}, {c}) facing {d} carrying={carrying}; cell ahead {t} holds a shelf: {t in shelf_cells}"
+
+    # ---- C05 -------------------------------------------------------------------------------------
+    def _collision(self, ps: Any, s: Any) -> bool:
+        """Two agents end on one cell, swap cells, or one enters the cell another one is leaving in the same step
+        (the docs only say "collide"; every reading is accepted as a cause)."""
+        new = [(r, c) for r, c, _, _ in self._agents(s)]
+        if len(set(new)) != len(new):
+            return True
+        if ps is None:
+            return False
+        old = [(r, c) for r, c, _, _ in self._agents(ps)]
+        for i in range(len(new)):
+            if new[i] != old[i]:
+                for j in range(len(new)):
+                    if j != i and new[i] == old[j]:
+                        return True
+        return False
+
+    def invalid_effect(self, ps, action, illegal, s, ts, env, cfg):
+        # Judged: the agents that played the illegal forward (C05: "the acting entity keeps its position and holdings").
+        # What a *noop* of the other agents does is not C05's business.
+        before, after = self._agents(ps), self._agents(s)
+        for i in illegal:
+            if before[i][:3] != after[i][:3]:
+                return ("agent_moved_on_ignored_action", f"agent {i} played an illegal forward but went (row, col, dir) {before[i][:3]} -> {after[i][:3]}")
+        psh, sh = self._shelves(ps), self._shelves(s)
+        frozen = {before[i][:2] for i in illegal}
+        for j in range(len(sh)):
+            if psh[j][:2] != sh[j][:2] and psh[j][:2] in frozen:
+                return ("shelf_moved_on_ignored_action", f"shelf {j} left {psh[j][:2]} although the agent there did not move")
+        if int(ts.step_type) == 2:
+            if int(s.step_count) < self.time_limit(env, cfg) and not self._collision(ps, s):
+                return ("invalid_move_ended_episode", f"LAST at step {int(s.step_count)} after an ignored forward without collision or time limit")
+        for i in illegal:  # checked last so that the other classes stay visible
+            if before[i][3] != after[i][3]:
+                return ("holdings_changed_on_ignored_action", f"agent {i} at (row, col)={before[i][:2]} played an illegal forward (carrying a shelf into "
+                        f"a shelf) and its is_carrying went {before[i][3]} -> {after[i][3]}: the ignored move made it drop its shelf")
+        return None
+
+    # ---- C07 -------------------------------------------------------------------------------------
+    def physical(self, ps, action, s, ts, env, cfg):
+        grid = np.asarray(s.grid)
+        H, W = grid.shape[1:]
+        ag, sh = self._agents(s), self._shelves(s)
+        cells = [(r, c) for r, c, _, _ in ag]
+        for i, (r, c, d, carrying) in enumerate(ag):
+            if not (0 <= r < H and 0 <= c < W):
+                return ("agent_outside_grid", f"agent {i} at {(r, c)} outside {H}x{W}")
+            if d not in (0, 1, 2, 3):
+                return ("agent_direction", f"agent {i} direction {d}")
+        if len(set(cells)) != len(cells):
+            return ("agents_share_cell", f"agent cells {cells}")
+        want = np.zeros((H, W), dtype=np.int64)
+        for i, (r, c) in enumerate(cells):
+            want[r, c] = i + 1
+        if not np.array_equal(grid[1], want):
+            k = np.argwhere(grid[1] != want)[0]
+            return ("agent_channel_disagrees", f"grid[_AGENTS]{k.tolist()} = {int(grid[1][tuple(k)])} but the agent table says {int(want[tuple(k)])}")
+        scells = [(r, c) for r, c, _ in sh]
+        for j, (r, c) in enumerate(scells):
+            if not (0 <= r < H and 0 <= c < W):
+                return ("shelf_outside_grid", f"shelf {j} at {(r, c)}")
+        if len(set(scells)) != len(scells):
+            return ("shelves_share_cell", "two shelves on one cell")
+        wants = np.zeros((H, W), dtype=np.int64)
+        for j, (r, c) in enumerate(scells):
+            wants[r, c] = j + 1
+        if not np.array_equal(grid[0], wants):
+            k = np.argwhere(grid[0] != wants)[0]
+            return ("shelf_channel_disagrees", f"grid[_SHELVES]{k.tolist()} = {int(grid[0][tuple(k)])} but the shelf table says {int(wants[tuple(k)])}")
+        n_shelves = int((~highways(cfg["sr"], cfg["sc"], cfg["h"])).sum())
+        if len(sh) != n_shelves or int((grid[0] > 0).sum()) != n_shelves:
+            return ("shelf_count", f"{len(sh)} shelves in the table, {int((grid[0] > 0).sum())} on the floor, floor plan has {n_shelves}")
+        for i, (r, c, d, carrying) in enumerate(ag):
+            if carrying and (r, c) not in set(scells):
+                return ("carrier_without_shelf", f"agent {i} at {(r, c)} is carrying but no shelf is on its cell")
+        q = [int(v) for v in np.asarray(s.request_queue).reshape(-1)]
+        if len(set(q)) != len(q):
+            return ("request_queue_duplicate", f"request_queue {q}")
+        if any(not (0 <= v < len(sh)) for v in q):
+            return ("request_queue_range", f"request_queue {q} with {len(sh)} shelves")
+        flagged = sorted(j for j, (_, _, rq) in enumerate(sh) if rq)
+        if flagged != sorted(q):
+            return ("request_queue_vs_is_requested", f"request_queue {sorted(q)} but is_requested marks {flagged}")
+        if ps is not None:
+            pa, psh = self._agents(ps), self._shelves(ps)
+            if len(psh) != len(sh):
+                return ("shelf_count", f"{len(psh)} -> {len(sh)} shelves")
+            for j in range(len(sh)):
+                if psh[j][:2] != sh[j][:2]:
+                    # a shelf only moves under the agent that carried it
+                    ok = any(pa[i][3] and pa[i][:2] == psh[j][:2] and ag[i][:2] == sh[j][:2] for i in range(len(ag)))
+                    if not ok:
+                        return ("shelf_moved_without_carrier", f"shelf {j} moved {psh[j][:2]} -> {sh[j][:2]} without a carrying agent making that move")
+        return None
+
+    # ---- C11 -------------------------------------------------------------------------------------
+    def end_cause(self, ps, action, s, ts, env, cfg):
+        return "collision" if self._collision(ps, s) else None
+
+    # ---- C12 -------------------------------------------------------------------------------------
+    def observe(self, s, obs, env, cfg):
+        if int(obs.step_count) != int(s.step_count):
+            return ("step_count", f"obs {int(obs.step_count)} vs state {int(s.step_count)}")
+        if not np.array_equal(np.asarray(obs.action_mask), np.asarray(s.action_mask)):
+            return ("action_mask", "obs.action_mask != state.action_mask")
+        rng = int(cfg["rng"])
+        hw = highways(cfg["sr"], cfg["sc"], cfg["h"])
+        H, W = hw.shape
+        ag, sh = self._agents(s), self._shelves(s)
+        view = np.asarray(obs.agents_view)
+        S = (2 * rng + 1) ** 2
+        n_feat = 8 + (S - 1) * 5 + S * 2
+        if view.shape != (len(ag), n_feat):
+            return ("agents_view_shape", f"{view.shape} expected {(len(ag), n_feat)}")
+        cells = [(r, c) for r, c, _, _ in ag]
+        grid = np.asarray(s.grid)
+        consistent = len(set(cells)) == len(cells) and all(grid[1][r, c] == i + 1 for i, (r, c) in enumerate(cells)) \
+            and int((grid[1] > 0).sum()) == len(cells)
+        if not consistent:
+            return None  # collision (terminal) state: who is "on" a shared cell is unspecified - the views are not judged
+        agent_at = {rc: i for i, rc in enumerate(cells)}
+        shelf_at = {(r, c): j for j, (r, c, _) in enumerate(sh)}
+        for i, (r, c, d, carrying) in enumerate(ag):
+            want: List[int] = [r, c, carrying] + [1 if k == d else 0 for k in range(4)] + [int(hw[r, c])]
+            window = [(r + dr, c + dc) for dr in range(-rng, rng + 1) for dc in range(-rng, rng + 1)]
+            for rc in window:
+                if rc == (r, c):
+                    continue
+                j = agent_at.get(rc)
+                want += [0, 0, 0, 0, 0] if j is None else [1] + [1 if k == ag[j][2] else 0 for k in range(4)]
+            for rc in window:
+                j = shelf_at.get(rc)
+                want += [0, 0] if j is None else [1, int(sh[j][2])]
+            w = np.asarray(want)
+            if not np.array_equal(view[i], w):
+                k = int(np.flatnonzero(view[i] != w)[0])
+                return ("agents_view", f"agent {i} at {(r, c)} dir {d}: feature {k} is {int(view[i][k])} expected {int(w[k])} "
+                        f"(layout: 8 own, {(S - 1) * 5} other-agent, {S * 2} shelf features)")
+        return None
+
+    # ---- policies ----------------------------------------------------------------------------------
+    def policy_survive(self, s, env, rng, legal):
+        """Everybody turns / waits / toggles in place; at most one agent walks, and only into a cell no agent is on."""
+        ag = self._agents(s)
+        shape = tuple(np.asarray(s.grid).shape[1:])
+        occupied = {(r, c) for r, c, _, _ in ag}
+        out = [int(rng.choice([NOOP, LEFT, RIGHT, TOGGLE])) for _ in ag]
+        i = int(rng.integers(0, len(ag)))
+        r, c, d, _ = ag[i]
+        t = self._ahead(shape, r, c, d)
+        if t is not None and t not in occupied and (legal is None or legal[i, FORWARD]) and rng.random() < 0.7:
+            out[i] = FORWARD
+        return out
+
+    @staticmethod
+    def _turn_towards(d: int, want: int) -> int:
+        if d == want:
+            return FORWARD
+        return RIGHT if (want - d) % 4 == 1 else LEFT
+
+    def policy_collide(self, s, env, rng, legal):
+        """Every agent heads for the nearest other agent."""
+        ag = self._agents(s)
+        if len(ag) < 2:
+            return None
+        out = []
+        for i, (r, c, d, _) in enumerate(ag):
+            others = [(abs(r - r2) + abs(c - c2), j) for j, (r2, c2, _, _) in enumerate(ag) if j != i]
+            _, j = min(others)
+            dr, dc = ag[j][0] - r, ag[j][1] - c
+            if abs(dr) >= abs(dc) and dr != 0:
+                want = 2 if dr > 0 else 0
+            else:
+                want = 1 if dc > 0 else 3
+            a = self._turn_towards(d, want)
+            if a == FORWARD and legal is not None and not legal[i, FORWARD]:
+                a = TOGGLE
+            out.append(a)
+        return out
+
+    def policy_complete(self, s, env, rng, legal):
+        """Agent 0 works (fetch a requested shelf, carry it along the aisles to a goal cell, put it back on a free shelf
+        location); the others wait."""
+        ag, sh = self._agents(s), self._shelves(s)
+        H, W = np.asarray(s.grid).shape[1:]
+        hw = np.asarray(env.highways).astype(bool)  # (a client may read the env's public attributes)
+        out = [NOOP] * len(ag)
+        r, c, d, carrying = ag[0]
+        others = {(x, y) for x, y, _, _ in ag[1:]}
+        shelf_at = {(x, y): j for j, (x, y, _) in enumerate(sh)}
+        goals = {(H - 1, W // 2 - 1), (H - 1, W // 2)}
+        free = np.ones((H, W), bool)
+        for rc in others:
+            free[rc] = False
+        if carrying:
+            for rc in shelf_at:
+                if rc != (r, c):
+                    free[rc] = False
+            requested = bool(sh[shelf_at[(r, c)]][2]) if (r, c) in shelf_at else False
+            if requested:
+                is_goal = lambda rc: rc in goals  # noqa: E731
+            else:
+                if not hw[r, c]:
+                    out[0] = TOGGLE  # put it down here
+                    return out
+                is_goal = lambda rc: not hw[rc]  # noqa: E731
+        else:
+            targets = {rc for rc, j in shelf_at.items() if sh[j][2] and rc not in others}
+            if (r, c) in targets:
+                out[0] = TOGGLE
+                return out
+            is_goal = lambda rc: rc in targets  # noqa: E731
+        prev: Dict[Tuple[int, int], Any] = {(r, c): None}
+        dq = deque([(r, c)])
+        found = None
+        while dq:
+            cur = dq.popleft()
+            if cur != (r, c) and is_goal(cur):
+                found = cur
+                break
+            for k, (dr, dc) in enumerate(DIRS):
+                n = (cur[0] + dr, cur[1] + dc)
+                if 0 <= n[0] < H and 0 <= n[1] < W and free[n] and n not in prev:
+                    prev[n] = cur
+                    dq.append(n)
+        if found is None:
+            out[0] = int(rng.choice([LEFT, RIGHT]))
+            return out
+        step = found
+        while prev[step] != (r, c):
+            step = prev[step]
+        want = DIRS.index((step[0] - r, step[1] - c))
+        out[0] = self._turn_towards(d, want)
+        return out
